@@ -378,6 +378,50 @@ def check(res, tier, seed):
                     monitor_hits += 1
                     res.violation("inforremotes", "a call in flight inside the ForRemotes callback when the transport failed (%s): %s" % (r["config"], c["err"] or "returned a nil error without a response"),
                                   dict(kind="sys", family="inforremotes", config=r["config"], seed=r["seed"], call=c, notes=r.get("notes")))
+    if pid in ("C03", "C16"):
+        # black box: a read fails with an error value panrpc uses as a signal elsewhere; a stuck response write
+        from . import sys_props
+        lrecs, lrc, lout = C.run_job(binary, wd, "linkend", dict(family="sys", seed=seed, n=(35 if tier == "quick" else 350), cases=["linkend"]), timeout=900)
+        fam["linkend(black-box)"] = len(lrecs)
+        for r in lrecs:
+            if pid == "C03":
+                vs = sys_props.mon_linkend(r)
+            else:
+                vs = []
+                for c in r.get("calls") or []:
+                    if c["m"] == "LinkReturn" and c["ret"] == "returned" and "fails with" in r["config"]:
+                        want = {"context.Canceled": "context canceled", "context.DeadlineExceeded": "context deadline exceeded", "io.EOF": "EOF",
+                                "io.ErrUnexpectedEOF": "unexpected EOF", "net.ErrClosed": "use of closed network connection", "os.ErrDeadlineExceeded": "i/o timeout",
+                                "utils.ErrClosed": "closed", "wrapped context.Canceled": "read tcp: context canceled", "plain": "connection reset by peer"}[r["config"].split("fails with ")[1]]
+                        if c["err"] != want:
+                            vs.append("%s: Link returned %r, not the first (and only) reported error %r" % (r["config"], c["err"], want))
+                    elif c["m"] == "LinkReturn" and c["ret"] != "returned":
+                        vs.append("Link did not return although an error was reported (%s)" % r["config"])
+            if vs:
+                monitor_hits += 1
+                res.violation("linkend:" + re.sub(r"\d+", "N", vs[0])[:60], "implementation violates %s: %s" % (pid, vs[0]),
+                              dict(kind="sys", family="linkend", config=r["config"], seed=r["seed"], all=vs[:8], calls=r.get("calls")))
+    if pid == "C14":
+        from . import sys_props
+        erecs, erc, eout = C.run_job(binary, wd, "enumrace", dict(family="sys", seed=seed, n=(12 if tier == "quick" else 200), cases=["enumrace"]), timeout=600)
+        fam["enumrace(black-box)"] = len(erecs)
+        for r in erecs:
+            vs = sys_props.mon_enumrace(r)
+            if vs:
+                monitor_hits += 1
+                res.violation("enumrace", "implementation violates C14: %s" % vs[0], dict(kind="sys", family="enumrace", seed=r["seed"], all=vs[:6]))
+    if pid == "C04":
+        # black-box cancellation scenarios (real scheduler, every configuration): cancelled calls that carry
+        # closures, stale invocations, closure invocations with a context of their own
+        from . import sys_props
+        krecs, krc, kout = C.run_job(binary, wd, "cancel", dict(family="sys", seed=seed, n=(12 if tier == "quick" else 240), cases=["cancel"]), timeout=600)
+        fam["cancel(black-box)"] = len(krecs)
+        for r in krecs:
+            vs = sys_props.mon_c04_sys(r)
+            if vs:
+                monitor_hits += 1
+                res.violation("cancel:" + re.sub(r"\d+", "N", vs[0])[:50], "implementation violates C04: %s" % vs[0],
+                              dict(kind="sys", family="cancel", config=r["config"], seed=r["seed"], all=vs[:8], calls=r.get("calls")))
     if pid == "C12":
         from . import sys_props
         hrecs2, hrc2, hout2 = C.run_job(binary, wd, "hubclosures", dict(family="sys", seed=seed, n=(12 if tier == "quick" else 200), cases=["hub"]), timeout=400)
